@@ -6,6 +6,9 @@
 wt=$1; n=$2; workers=$3; factor=$4; shift 4
 cd "$wt" || exit 2
 git checkout -q -- . || exit 2
+# always judge the change against the CURRENT tree of /repo (fix commits made since the
+# worktree was created would otherwise show up as "caught")
+git checkout -q --detach "$(git -C /repo rev-parse HEAD)" || exit 2
 git apply "MUTATION/$n/patch.diff" || { echo "tryseed: patch does not apply" >&2; exit 2; }
 trap 'cd "$wt" && git checkout -q -- .' EXIT
 for p in "$@"; do
